@@ -12,6 +12,9 @@ import Gama.Lemmas.PinvMP
 import Gama.Lemmas.MatInvertGJ
 import Gama.Lemmas.SymInvert
 import Gama.Lemmas.SymCholPSD
+import Gama.Lemmas.MatVecGuards
+import Gama.Lemmas.SymInvertPD
+import Gama.Lemmas.SymCholReal
 namespace Gama.Props.C15
 open Gama Gama.MemRep Gama.MatVec
 
@@ -243,10 +246,188 @@ example : (DimCheck.find? Gen.DimChecks.table "Mat::operator+(Mat)").any (fun e 
   decide
 example : Gen.DimChecks.table.length = 52 := by decide
 
+/-! ## (A) The regenerated table IS the guard of the operator models, and the guard is exactly what
+    keeps the models' index arithmetic inside the operands
+
+    `guards_conforming` is about the TABLE.  The theorems of this section tie every table entry to the
+    operator model the drivers run (`Model/MatVec.lean`; same pairing as `GUARD_OF` in tools/props/c15.py).
+    `TableGuards name sa sb nr r` (`Lemmas/MatVecGuards.lean`) says: the regenerated table has an entry
+    `name`; the run `r` is `.error .badRank` IFF that entry's guard fires on the shapes `sa`, `sb` the
+    operands report (`nr` = `size()` of the local result object handed to `MatVecBase::add/sub`); and if
+    the guard does not fire, `r ≠ .error .oob` — every checked read of the model hits the storage.
+    Operands satisfy the class invariants (`WF`: the storage has `rows·cols` resp. `dim(dim+1)/2`
+    elements; for an abstract `MatBase`, `operator()` is defined on `[1,rows]×[1,cols]`).
+    Chain: source guard —translator→ table —these theorems→ model guard and in-bounds
+    —`product_def`/`sum_def`/…→ entrywise algebra.  Covered: 45 of the 52 entries (+ the guard half of
+    `operator*(Vec,TransMat)`); not covered: `MatBase::invert()`, `SymMat::invert()`, `trans(Vec)`,
+    `trans(TransVec)`, `trans(SymMat)` (no guard, and no storage-indexed model), and the in-bounds half of
+    `operator*(Vec,TransMat)`, which is FALSE (`vec_transmat_guard_only`). -/
+
+section guards
+variable {K : Type}
+
+/-- Mat ± Mat: the members (through `MatVecBase::add/sub`, local result `Mat T(rows(), cols())`) and
+    the free `MatBase` versions (any two `MatBase`: Mat, TransMat, SymMat views) -/
+theorem sum_guards_table [Add K] [Sub K] (A B : Mat K) (hA : A.WF) (hB : B.WF)
+    (X Y : MB K) (hX : X.WF) (hY : Y.WF) (nr : Nat) :
+    TableGuards "Mat::operator+(Mat)" A.shape B.shape (A.rows * A.cols) (matAdd A B) ∧
+    TableGuards "Mat::operator-(Mat)" A.shape B.shape (A.rows * A.cols) (matSub A B) ∧
+    TableGuards "operator+(MatBase,MatBase)" X.shape Y.shape nr (mbZip (· + ·) X Y) ∧
+    TableGuards "operator-(MatBase,MatBase)" X.shape Y.shape nr (mbZip (· - ·) X Y) :=
+  ⟨matAdd_table A B hA hB, matSub_table A B hA hB, mbAdd_table X Y hX hY nr, mbSub_table X Y hX hY nr⟩
+
+/-- Mat · Mat (pointer walks) and MatBase · MatBase (accessors) -/
+theorem product_guards_table [Add K] [Mul K] [Zero K] (A B : Mat K) (hA : A.WF) (hB : B.WF)
+    (X Y : MB K) (hX : X.WF) (hY : Y.WF) (nr : Nat) :
+    TableGuards "operator*(Mat,Mat)" A.shape B.shape nr (matMul A B) ∧
+    TableGuards "operator*(MatBase,MatBase)" X.shape Y.shape nr (mbMul X Y) :=
+  ⟨matMul_table A B hA hB nr, mbMul_table X Y hX hY nr⟩
+
+/-- Mat · Vec, MatBase · Vec, TransMat · Vec -/
+theorem matvec_guards_table [Add K] [Mul K] [Zero K] (A : Mat K) (hA : A.WF) (X : MB K) (hX : X.WF)
+    (T : TMat K) (hT : T.WF) (b : Vec K) (nr : Nat) :
+    TableGuards "operator*(Mat,Vec)" A.shape (vshape b) nr (matMulVec A b) ∧
+    TableGuards "operator*(MatBase,Vec)" X.shape (vshape b) nr (mbMulVec X b) ∧
+    TableGuards "operator*(TransMat,Vec)" T.shape (vshape b) nr (tMulVec T b) :=
+  ⟨matMulVec_table A b hA nr, mbMulVec_table X b hX nr, tMulVec_table T b hT nr⟩
+
+/-- Vec · Mat: `TransVec * Mat`, `TransVec * MatBase` -/
+theorem vecmat_guards_table [Add K] [Mul K] [Zero K] (A : Mat K) (hA : A.WF) (X : MB K) (hX : X.WF)
+    (b : Vec K) (nr : Nat) :
+    TableGuards "operator*(TransVec,Mat)" (wshape b) A.shape nr (tvecMulMat b A) ∧
+    TableGuards "operator*(TransVec,MatBase)" (wshape b) X.shape nr (tvecMulMB b X) :=
+  ⟨tvecMulMat_table b A hA nr, tvecMulMB_table b X hX nr⟩
+
+/-- `dot`, `TransVec * Vec`, and the sums of Vec / TransVec (`+ - += -=`) -/
+theorem vec_guards_table [Add K] [Sub K] [Mul K] [Zero K] (a b : Vec K) (nr : Nat) :
+    TableGuards "VecBase::dot(VecBase)" (vshape a) (vshape b) nr (dot a b) ∧
+    TableGuards "operator*(TransVec,Vec)" (wshape a) (vshape b) nr (dot a b) ∧
+    TableGuards "Vec::operator+(Vec)" (vshape a) (vshape b) a.size (vecAdd a b) ∧
+    TableGuards "Vec::operator-(Vec)" (vshape a) (vshape b) a.size (vecSub a b) ∧
+    TableGuards "Vec::operator+=(Vec)" (vshape a) (vshape b) nr (vecAdd a b) ∧
+    TableGuards "Vec::operator-=(Vec)" (vshape a) (vshape b) nr (vecSub a b) ∧
+    TableGuards "TransVec::operator+(TransVec)" (wshape a) (wshape b) a.size (vecAdd a b) ∧
+    TableGuards "TransVec::operator-(TransVec)" (wshape a) (wshape b) a.size (vecSub a b) :=
+  ⟨dot_table a b nr, tvecDot_table a b nr, vecAdd_table a b, vecSub_table a b, vecAddEq_table a b nr,
+   vecSubEq_table a b nr, tvecAdd_table a b, tvecSub_table a b⟩
+
+/-- the TransMat family: `TransMat ± TransMat`, `Mat ± TransMat`, `TransMat ± Mat`, the three products,
+    and the unguarded `trans(Mat)` / `trans(TransMat)` (guard never fires, copy loops stay inside) -/
+theorem transmat_guards_table [Add K] [Sub K] [Mul K] [Zero K] (A : Mat K) (hA : A.WF)
+    (S T : TMat K) (hS : S.WF) (hT : T.WF) (sb : DimCheck.Shape) (nr : Nat) :
+    TableGuards "TransMat::operator+(TransMat)" S.shape T.shape (S.rows * S.cols) (tAddT S T) ∧
+    TableGuards "TransMat::operator-(TransMat)" S.shape T.shape (S.rows * S.cols) (tSubT S T) ∧
+    TableGuards "operator+(Mat,TransMat)" A.shape T.shape nr (matAddT A T) ∧
+    TableGuards "operator-(Mat,TransMat)" A.shape T.shape nr (matSubT A T) ∧
+    TableGuards "operator+(TransMat,Mat)" T.shape A.shape nr (tAddMat T A) ∧
+    TableGuards "operator-(TransMat,Mat)" T.shape A.shape nr (tSubMat T A) ∧
+    TableGuards "operator*(TransMat,Mat)" T.shape A.shape nr (tMulMat T A) ∧
+    TableGuards "operator*(Mat,TransMat)" A.shape T.shape nr (matMulT A T) ∧
+    TableGuards "operator*(TransMat,TransMat)" S.shape T.shape nr (tMulT S T) ∧
+    TableGuards "trans(Mat)" A.shape sb nr (matTranspose A) ∧
+    TableGuards "trans(TransMat)" T.shape sb nr (transT T) :=
+  ⟨tAddT_table S T hS hT, tSubT_table S T hS hT, matAddT_table A T hA hT nr, matSubT_table A T hA hT nr,
+   tAddMat_table T A hT hA nr, tSubMat_table T A hT hA nr, tMulMat_table T A hT hA nr,
+   matMulT_table A T hA hT nr, tMulT_table S T hS hT nr, matTranspose_table A hA sb nr, transT_table T hT sb nr⟩
+
+/-- the SymMat family: member `±` (through `MatVecBase::add/sub`), free `± += -=`, `SymMat * SymMat`
+    (guard and indices right — the VALUE is the known finding `symmat_product_violates`),
+    `Mat * SymMat`, `Lower/Upper(Mat)`, and the unguarded `Lower/Upper(SymMat)` -/
+theorem symmat_guards_table [Add K] [Sub K] [Mul K] [Zero K] (A : Mat K) (hA : A.WF)
+    (S T : SMat K) (hS : S.WF) (hT : T.WF) (sb : DimCheck.Shape) (nr : Nat) :
+    TableGuards "SymMat::operator+(SymMat)" S.shape T.shape (S.dim * (S.dim + 1) / 2) (symAdd S T) ∧
+    TableGuards "SymMat::operator-(SymMat)" S.shape T.shape (S.dim * (S.dim + 1) / 2) (symSub S T) ∧
+    TableGuards "operator+(SymMat,SymMat)" S.shape T.shape nr (symZipFree (· + ·) S T) ∧
+    TableGuards "operator-(SymMat,SymMat)" S.shape T.shape nr (symZipFree (· - ·) S T) ∧
+    TableGuards "operator+=(SymMat,SymMat)" S.shape T.shape nr (symZipFree (· + ·) S T) ∧
+    TableGuards "operator-=(SymMat,SymMat)" S.shape T.shape nr (symZipFree (· - ·) S T) ∧
+    TableGuards "operator*(SymMat,SymMat)" S.shape T.shape nr (symMul S T) ∧
+    TableGuards "operator*(Mat,SymMat)" A.shape T.shape nr (matMulSym A T) ∧
+    TableGuards "Lower(Mat)" A.shape sb nr (matLowerSym A) ∧
+    TableGuards "Upper(Mat)" A.shape sb nr (matUpperSym A) ∧
+    TableGuards "Lower(SymMat)" S.shape sb nr (symLowerMat S) ∧
+    TableGuards "Upper(SymMat)" S.shape sb nr (symUpperMat S) :=
+  ⟨symAdd_table S T hS hT, symSub_table S T hS hT, symAddFree_table S T hS hT nr, symSubFree_table S T hS hT nr,
+   symAddEq_table S T hS hT nr, symSubEq_table S T hS hT nr, symMul_table S T hS hT nr,
+   matMulSym_table A T hA hT nr, matLowerSym_table A hA sb nr, matUpperSym_table A hA sb nr,
+   symLowerMat_table S hS sb nr, symUpperMat_table S hS sb nr⟩
+
+/-- the raw-storage primitives every member sum delegates to (`xsize` = `size()` of the result `X`) -/
+theorem storage_guards_table [Add K] [Sub K] [Mul K] (a b : Array K) (f : K) (xsize nr : Nat) :
+    TableGuards "MatVecBase::mul(Float,MatVecBase)" (rawshape a.size) (rawshape xsize) nr (baseMul a f xsize) ∧
+    TableGuards "MatVecBase::add(MatVecBase,MatVecBase)" (rawshape a.size) (rawshape b.size) xsize (baseAdd a b xsize) ∧
+    TableGuards "MatVecBase::sub(MatVecBase,MatVecBase)" (rawshape a.size) (rawshape b.size) xsize (baseSub a b xsize) :=
+  ⟨baseMul_table a f xsize nr, baseAdd_table a b xsize, baseSub_table a b xsize⟩
+
+/-- `Mat::invert(tol)`: `BadRank` iff the table's guard fires (the model keeps the storage as a function,
+    so there is no read to bound) -/
+theorem invert_guard_table [Scalar K] (rows cols : Nat) (tol : K) (m : Nat → K) (sb : DimCheck.Shape) (nr : Nat) :
+    ∃ e, DimCheck.find? Gen.DimChecks.table "Mat::invert(Float)" = some e ∧
+      (invert rows cols tol m = .error .badRank ↔ DimCheck.guardFires e ⟨rows, cols⟩ sb nr = true) :=
+  invert_table_guard rows cols tol m sb nr
+
+/-- views are `MatBase`s: the class invariant of Mat / TransMat / SymMat gives the `MatBase` one, so the
+    `MatBase` statements above apply to every concrete matrix class -/
+theorem views_wf (A : Mat K) (T : TMat K) (S : SMat K) :
+    (A.WF → A.mb.WF) ∧ (T.WF → T.mb.WF) ∧ (S.WF → S.mb.WF) :=
+  ⟨Mat.mb_WF, TMat.mb_WF, SMat.mb_WF⟩
+
+/-- **known finding C15-vec-transmat, at the level of the operator model.**  For
+    `operator*(const Vec&, const TransMat&)` the table's guard IS the model's guard (any operands), but
+    the in-bounds half is false: a 2-vector and the 2×3 view of a 3×2 matrix satisfy the class
+    invariants and pass the guard, and the run reads outside `A`.  (For `cols ≤ rows` views the reads
+    stay inside: `vecMulT_guard_iff` in Lemmas.) -/
+theorem vec_transmat_guard_only :
+    (∀ {K : Type} [Add K] [Mul K] [Zero K] (b : Vec K) (A : TMat K) (nr : Nat),
+      ∃ e, DimCheck.find? Gen.DimChecks.table "operator*(Vec,TransMat)" = some e ∧
+        (vecMulT b A = .error .badRank ↔ DimCheck.guardFires e (vshape b) A.shape nr = true)) ∧
+    (∃ (b : Vec Int) (A : TMat Int) (e : DimCheck.Entry), A.WF ∧
+      DimCheck.find? Gen.DimChecks.table "operator*(Vec,TransMat)" = some e ∧
+      DimCheck.guardFires e (vshape b) A.shape 0 = false ∧ vecMulT b A = .error .oob) := by
+  refine ⟨fun b A nr => vecMulT_table_guard b A nr, ?_⟩
+  obtain ⟨e, he, hiff⟩ := vecMulT_table_guard (#[1, 1] : Vec Int) (trans ⟨3, 2, #[1, 1, 1, 1, 1, 1]⟩) 0
+  refine ⟨#[1, 1], trans ⟨3, 2, #[1, 1, 1, 1, 1, 1]⟩, e, rfl, he, ?_, by decide⟩
+  cases hg : DimCheck.guardFires e (vshape (#[1, 1] : Vec Int)) (trans (⟨3, 2, #[1, 1, 1, 1, 1, 1]⟩ : Mat Int)).shape 0 with
+  | false => rfl
+  | true => have := hiff.mpr hg; revert this; decide
+
+/-- **the chain closed for Mat · Mat**: if the guard the translator read off `operator*(Mat,Mat)` does
+    not fire on the shapes of two well-formed matrices, the model run completes and its entries are
+    `Σ_k A(i,k)·B(k,j)` -/
+theorem product_chain [Semiring K] (A B : Mat K) (hA : A.WF) (hB : B.WF) (d : K) (nr : Nat) :
+    ∃ e, DimCheck.find? Gen.DimChecks.table "operator*(Mat,Mat)" = some e ∧
+      (DimCheck.guardFires e A.shape B.shape nr = false →
+        ∃ C, matMul A B = .ok C ∧ C.rows = A.rows ∧ C.cols = B.cols ∧
+          ∀ i j, i < A.rows → j < B.cols → C.at d i j = ∑ k ∈ Finset.range A.cols, A.at d i k * B.at d k j) := by
+  obtain ⟨e, he, hiff, _⟩ := matMul_table A B hA hB nr
+  refine ⟨e, he, fun hg => ?_⟩
+  have hc : A.cols = B.rows := by
+    by_contra hne
+    have := hiff.mp ((product_badRank_iff A B hA hB).1.mpr hne)
+    rw [hg] at this; cases this
+  obtain ⟨C, h1, h2, h3, _, h5⟩ := matMul_spec A B hA hB hc d
+  exact ⟨C, h1, h2, h3, h5⟩
+
+end guards
+
+-- non-vacuity: 2×3 · 3-vector passes the table's guard and completes; 2×3 · 2-vector fires it and throws
+example : TableGuards "operator*(Mat,Vec)" (⟨2, 3, #[1, 2, 3, 4, 5, 6]⟩ : Mat Int).shape (vshape (#[1, 0, -1] : Vec Int)) 0
+    (matMulVec (⟨2, 3, #[1, 2, 3, 4, 5, 6]⟩ : Mat Int) #[1, 0, -1]) :=
+  matMulVec_table ⟨2, 3, #[1, 2, 3, 4, 5, 6]⟩ #[1, 0, -1] (show (6 : Nat) = 2 * 3 from rfl) 0
+example : (DimCheck.find? Gen.DimChecks.table "operator*(Mat,Vec)").any (fun e =>
+      !DimCheck.guardFires e ⟨2, 3⟩ ⟨3, 1⟩ 0 && DimCheck.guardFires e ⟨2, 3⟩ ⟨2, 1⟩ 0) = true ∧
+    matMulVec (⟨2, 3, #[1, 2, 3, 4, 5, 6]⟩ : Mat Int) #[1, 0, -1] = .ok #[-2, -2] ∧
+    matMulVec (⟨2, 3, #[1, 2, 3, 4, 5, 6]⟩ : Mat Int) #[1, 0] = .error .badRank := by decide
+-- a SymMat view read as a `MatBase`, times a TransVec: in bounds through the symmetric accessor
+example : tvecMulMB (#[1, 1] : Vec Int) (⟨2, #[1, 2, 3]⟩ : SMat Int).mb = .ok #[3, 5] := by decide
+example : (⟨2, #[1, 2, 3]⟩ : SMat Int).WF ∧ (⟨2, 3, #[1, 2, 3, 4, 5, 6]⟩ : Mat Int).WF ∧
+    (trans (⟨2, 3, #[1, 2, 3, 4, 5, 6]⟩ : Mat Int)).WF := ⟨rfl, rfl, rfl⟩
+
 /-! ## Operators of the TransMat / TransVec family
     The models of `TransMat ± TransMat`, `TransMat * TransMat`, `TransVec * MatBase` are those of the
-    code with the proposed one-line fixes (notes/proposed/C15-transmat-ctor-dims, -transmat-transmat-stride,
-    -transvec-matbase-bound); on the unfixed tree the correspondence reports the failing inputs below. -/
+    CURRENT tree: the three one-line fixes (TransMat(r,c) constructor dimensions, the stride of
+    `TransMat * TransMat`, the inner loop bound of `TransVec * MatBase`) are committed in /repo, and the
+    former failing inputs (corpus/C15/f-*.txt) are kept below as regression examples. -/
 
 /-- `trans(A) ± trans(B)` has the shape of its operands, for every shape -/
 theorem transmat_sum_shape {K : Type} [Add K] [Sub K] (A B C : TMat K) :
@@ -451,14 +632,31 @@ theorem symchol_nullity (sq : K → K) (hsq : ∀ x, 0 ≤ x → sq x * sq x = x
 
 /-! ## (B) `SymMat::invert` -/
 
-/-- `SymMat::invert()` (n exchange steps on the pivot (1,1) of the packed storage with cyclic
-    renumbering; sign convention `w(i) = ∓q/p`) returns the inverse, on both sides, provided no pivot
-    `a[1]` met on the way is zero (the code only rejects `p < 0`).
-    FULL statement not proved: "for a positive definite input every pivot is positive, so `invert` does
-    not throw and returns the inverse".  Missing: positive definite ⇒ each pivot (the (1,1) entry of the
-    current Schur complement) is `> 0`; the pivot hypothesis below stands for it.  `symInvertState n a t`
-    is the model's state after `t` outer iterations (`symInvert1_eq_state`, by `rfl`-unfolding). -/
-theorem syminvert_partial (sq : K → K) (n : Nat) (hn : 2 ≤ n) (s r : Nat → K)
+/-- **`SymMat::invert()` on a positive definite matrix returns the inverse.**  The model — n exchange
+    steps on the pivot (1,1) of the packed storage with cyclic renumbering, sign convention
+    `w(i) = ∓q/p`, rejection `p < 0 → BadRank` — on a symmetric POSITIVE DEFINITE input (`PosDef n s`:
+    `0 < vᵀ A v` for every `v` that is non-zero on `1..n`), `n ≥ 2`, over any ordered field:
+    every pivot `a[1]` met on the way is POSITIVE (it is `xᵀ A x` for the `x ≠ 0` whose exchanged vector
+    is `e₁`), so the code does not throw, and the packed result `r` is the inverse on both sides.
+    (This is the former `syminvert_partial` with its pivot hypothesis `hpiv` discharged;
+    `symInvertState n a t` is the model's state after `t` outer iterations.) -/
+theorem syminvert (sq : K → K) (n : Nat) (hn : 2 ≤ n) (s : Nat → K) (hpd : PosDef n s) :
+    (∀ t, t < n → ∀ st, symInvertState n (fun k => s (k - 1)) t = .ok st → 0 < st.a 1) ∧
+    ∃ r, @symInvert K (fieldScalar K sq) n s = .ok r ∧
+      (∀ i j, 1 ≤ i → i ≤ n → 1 ≤ j → j ≤ n →
+        ∑ c ∈ Finset.range n, symEntry r i (c + 1) * symEntry s (c + 1) j = if i = j then 1 else 0) ∧
+      (∀ i j, 1 ≤ i → i ≤ n → 1 ≤ j → j ≤ n →
+        ∑ c ∈ Finset.range n, symEntry s i (c + 1) * symEntry r (c + 1) j = if i = j then 1 else 0) :=
+  symInvert_pd sq n hn s hpd
+
+/-- the same for dimension 1: positive definite means `s 0 > 0`; `invert` stores the reciprocal -/
+theorem syminvert_pd_one (sq : K → K) (s : Nat → K) (hpd : PosDef 1 s) :
+    0 < s 0 ∧ ∃ r, @symInvert K (fieldScalar K sq) 1 s = .ok r ∧ r 0 * s 0 = 1 ∧ s 0 * r 0 = 1 :=
+  symInvert_pd_one sq s hpd
+
+/-- without definiteness: whenever `invert` does not throw and no pivot it met is zero (the code only
+    rejects `p < 0`), the result is the two-sided inverse of the symmetric input -/
+theorem syminvert_nonzero_pivots (sq : K → K) (n : Nat) (hn : 2 ≤ n) (s r : Nat → K)
     (hpiv : ∀ t, t < n → ∀ st, symInvertState n (fun k => s (k - 1)) t = .ok st → st.a 1 ≠ 0)
     (h : @symInvert K (fieldScalar K sq) n s = .ok r) :
     (∀ i j, 1 ≤ i → i ≤ n → 1 ≤ j → j ≤ n →
@@ -477,11 +675,30 @@ end
 example : ∃ L, @cholDec ℚ (fieldScalar ℚ sqEx) 2 (1 / 100000000) sEx = .ok (L, 0) ∧
     L 0 = 2 ∧ L 1 = 1 ∧ L 2 = 1 := cholDec_example
 
--- non-vacuity, nullity 1: A = [[1,1],[1,1]] is positive semi-definite of rank 1; L = [[1,0],[1,0]]; both
--- hypotheses of `symchol_psd` hold for it
+-- non-vacuity, nullity 1: A = [[1,1],[1,1]] is positive semi-definite of rank 1; L = [[1,0],[1,0]]; this
+-- example shows the run and the hypothesis `hpsd` of `symchol_psd`; `hz` (the zeroed pivot is an exact
+-- zero) for the same input is `cholDec_psd_example_hyps.2` in Lemmas/SymCholPSD.lean
 example : (∃ L, @cholDec ℚ (fieldScalar ℚ sqEx1) 2 (1 / 100000000) sEx1 = .ok (L, 1) ∧ L 0 = 1 ∧ L 1 = 1 ∧ L 2 = 0) ∧
     (∀ v : ℕ → ℚ, 0 ≤ ∑ r ∈ Finset.Icc 1 2, ∑ c ∈ Finset.Icc 1 2, v r * symEntry sEx1 r c * v c) :=
   ⟨cholDec_psd_example, cholDec_psd_example_hyps.1⟩
+
+-- JOINT witness of the square-root law: over ℝ with `sq := Real.sqrt` the law `hsq` holds for every
+-- argument AND `cholDec` succeeds on [[4,2],[2,2]] (nullity 0, `L = [[2,0],[1,1]]`): all hypotheses of
+-- `symchol` / `symchol_solve` at once (the ℚ examples use a table that is a root only at 4 and 1)
+example : (∀ x : ℝ, 0 ≤ x → Real.sqrt x * Real.sqrt x = x) ∧ (0 : ℝ) ≤ 1 / 100000000 ∧
+    ∃ L, @cholDec ℝ (fieldScalar ℝ Real.sqrt) 2 (1 / 100000000) sExR = .ok (L, 0) ∧
+      L 0 = 2 ∧ L 1 = 1 ∧ L 2 = 1 :=
+  ⟨real_hsq, by norm_num, cholDec_real_example⟩
+-- … and of `symchol_psd` / `symchol_nullity`: [[1,1],[1,1]] over ℝ, nullity 1, with `hsq`, `hpsd` and `hz`
+example : (∀ x : ℝ, 0 ≤ x → Real.sqrt x * Real.sqrt x = x) ∧
+    (∃ L, @cholDec ℝ (fieldScalar ℝ Real.sqrt) 2 (1 / 100000000) sEx1R = .ok (L, 1) ∧ L 0 = 1 ∧ L 1 = 1 ∧ L 2 = 0) ∧
+    (∀ v : ℕ → ℝ, 0 ≤ ∑ r ∈ Finset.Icc 1 2, ∑ c ∈ Finset.Icc 1 2, v r * symEntry sEx1R r c * v c) ∧
+    (∀ L : ℕ → ℝ, L 0 = 1 → L 1 = 1 → L 2 = 0 → ∀ i, 1 ≤ i → i ≤ 2 →
+      ¬ (sEx1R (tri i i) * (1 / 100000000) < cholX sEx1R L i i) → cholX sEx1R L i i = 0) :=
+  ⟨real_hsq, cholDec_real_psd_example, cholDec_real_psd_example_hyps.1, cholDec_real_psd_example_hyps.2⟩
+
+-- non-vacuity of `syminvert`: [[4,2],[2,2]] is positive definite
+example : PosDef 2 sinvAEx := sinvAEx_posDef
 
 -- non-vacuity: inverse of [[4,2],[2,2]] is [[1/2,-1/2],[-1/2,1]]; its pivots are 4 and 1
 example : (∃ X, @symInvert ℚ (fieldScalar ℚ id) 2 sinvAEx = .ok X ∧ X 0 = 1 / 2 ∧ X 1 = -1 / 2 ∧ X 2 = 1) ∧
